@@ -181,7 +181,7 @@ def run_threaded(ctx, case):
 
 # ---- (c) the same threaded programs under the deterministic scheduler (line granularity in tape_recorder.py)
 
-def run_scheduled(ctx, case, extra_check=None):
+def run_scheduled(ctx, case, extra_check=None, chooser=None, account=True):
     from pbt import detsched as DS
     from playback.tape_recorder import TapeRecorder
     from pbt import zoo
@@ -220,7 +220,8 @@ def run_scheduled(ctx, case, extra_check=None):
 
         sched.spawn('main', main)
         try:
-            sched.run(DS.replay_chooser(case['sched']['trace']) if case['sched']['mode'] == 'trace' else
+            sched.run(chooser if chooser is not None else
+                      DS.replay_chooser(case['sched']['trace']) if case['sched']['mode'] == 'trace' else
                       DS.pct_chooser(case['sched']['prio'], case['sched']['changes']) if case['sched']['mode'] == 'pct'
                       else DS.random_chooser(case['sched']['seed'], case['sched'].get('p', 0.3)))
         except DS.Deadlock as e:
@@ -260,8 +261,41 @@ def run_scheduled(ctx, case, extra_check=None):
     finally:
         DS.install(None)
         z.__exit__(None, None, None)
-    ctx.case({'prog': case['prog'], 'trace': ''.join(n[-1] for n in sched.trace)}, sched.preemptions >= 1, classes=(
-        'scheduled:' + case['how'], 'scheduled:preemptions=%d' % min(sched.preemptions, 5)))
+    if account:
+        ctx.case({'prog': case['prog'], 'trace': ''.join(n[-1] for n in sched.trace)}, sched.preemptions >= 1, classes=(
+            'scheduled:' + case['how'], 'scheduled:preemptions=%d' % min(sched.preemptions, 5)))
+    return sched
+
+
+def tiny_threaded(behs):
+    """Two workers, one intercepted input call each, with the given body behaviours."""
+    decl = {'alias': 'in', 'kind': 'instance', 'resolver': False, 'capture': 'all', 'handler': 'none'}
+    out = {'alias': 'out', 'kind': 'instance', 'handler': 'none'}
+
+    def step(b, n):
+        if b == 'out':
+            return {'t': 'out', 'i': 0, 'a': n, 'kw': [], 'beh': 'ret', 'ret': n, 'exc': 'Err2'}
+        return {'t': 'in', 'i': 0, 'a': n, 'b': 0, 'usekw': False, 'beh': b, 'ret': n, 'name': 'n1', 'exc': 'Err'}
+    prog = {'klass': 'instance', 'ins': [decl], 'outs': [out], 'ending': 'return', 'result': None, 'extractor': 'none',
+            'steps': [{'t': 'threads', 'workers': [[step(b, n)] for n, b in enumerate(behs)]}]}
+    return {'prog': PS.assign_sids(prog), 'faults': [], 'enabled': True, 'params': None, 'threaded': True,
+            'how': 'dfs:' + '+'.join(behs), 'scheduled': True, 'sched': {'mode': 'dfs'}}
+
+
+def dfs_scheduled(ctx, behs, bound, extra_check=None):
+    from pbt import detsched as DS
+    case = tiny_threaded(behs)
+
+    def on_run(sched):
+        ctx.case({'dfs': behs, 'trace': ''.join(n[-1] for n in sched.trace)}, sched.preemptions >= 1,
+                 classes=('scheduled-dfs:' + '+'.join(behs),))
+
+    def run(chooser):
+        import copy as _c
+        return run_scheduled(ctx, _c.deepcopy(case), extra_check=extra_check, chooser=chooser, account=False)
+
+    return DS.dfs_explore(run, bound, ctx.shard, ctx.nshards, free_bound=2, max_runs=ctx.pick(4000, 300000),
+                          on_run=on_run)
 
 
 def scheduled_cases():
@@ -306,4 +340,24 @@ def run(ctx):
     if ok:
         ok = hyp_search(ctx, threaded_cases(), lambda c: run_threaded(ctx, c), ctx.pick(100, 1500), label="threaded")
     if ok:
-        hyp_search(ctx, scheduled_cases(), lambda c: run_scheduled(ctx, c), ctx.pick(60, 1500), label="scheduled")
+        ok = hyp_search(ctx, scheduled_cases(), lambda c: run_scheduled(ctx, c), ctx.pick(60, 1500), label="scheduled")
+    if ok:
+        # bounded-preemption DFS over tiny two-worker programs
+        from pbt.runner import guarded
+        plans = [(['force', 'discard'], 1)] if ctx.quick else [(['force', 'discard'], 2), (['discard', 'discard'], 2),
+                                                               (['ret', 'discard'], 2), (['out', 'discard'], 2),
+                                                               (['raise', 'discard'], 2)]
+        complete_all = True
+        scopes = []
+        for behs, bound in plans:
+            def go(c):
+                runs, complete = dfs_scheduled(ctx, behs, bound)
+                ctx.extra['dfs_runs_' + '+'.join(behs)] = runs
+                ctx.extra['dfs_complete_' + '+'.join(behs)] = bool(complete)
+            if not guarded(ctx, {'dfs': behs, 'bound': bound}, go):
+                break
+            scopes.append('%s with <= %d preemptions' % ('+'.join(behs), bound))
+        ctx.extra['exhaustive_parts'] = ('every schedule at line granularity of tape_recorder.py (<= 2 non-default '
+                                         'choices at blocking points) of the two-worker programs: ' + '; '.join(scopes) +
+                                         '. Fault placements (single faults) are enumerated exhaustively per generated '
+                                         'program; programs, fault pairs and the other schedules are sampled.')
